@@ -1,3 +1,761 @@
-//! Kani contract harnesses for layout (included from /repo/keyberon/src/layout.rs under cfg(kani)).
-#![allow(unused_imports, dead_code)]
+//! Kani contract harnesses for keyberon/src/layout.rs
+//! (included from /repo/keyberon/src/layout.rs under cfg(kani)).
+//! Properties: C06 (one-shot), C05 (tap-hold), C17 (tap-dance), C09 (chords v1), C02.
+//!
+//! Oracles are the postconditions written from the property statements / user documentation.
+#![allow(unused_imports, dead_code, unused_mut)]
 use super::*;
+
+// =======================================================================================
+// C06  OneShotState::{handle_press, handle_release, tick_osh}
+// Bound: every table holds at most OSH_N entries (the real capacity is 16; the wrap of a full
+// table is covered by c06_b_release_overflow).
+// =======================================================================================
+const OSH_N: usize = 3;
+
+fn any_coord() -> KCoord {
+    // coordinates are compared only for equality; a small universe makes collisions likely
+    let r: u8 = kani::any();
+    let c: u16 = kani::any();
+    kani::assume(r < 2 && c < 4);
+    (r, c)
+}
+
+fn any_table() -> ([KCoord; OSH_N], usize, OneShotCoords) {
+    let arr = [any_coord(), any_coord(), any_coord()];
+    let n: usize = kani::any();
+    kani::assume(n <= OSH_N);
+    let mut d: OneShotCoords = ArrayDeque::new();
+    let mut i = 0;
+    while i < n {
+        let _ = d.push_back(arr[i]);
+        i += 1;
+    }
+    (arr, n, d)
+}
+
+fn any_end_config() -> OneShotEndConfig {
+    let k: u8 = kani::any();
+    kani::assume(k < 4);
+    match k {
+        0 => OneShotEndConfig::EndOnFirstPress,
+        1 => OneShotEndConfig::EndOnFirstPressOrRepress,
+        2 => OneShotEndConfig::EndOnFirstRelease,
+        _ => OneShotEndConfig::EndOnFirstReleaseOrRepress,
+    }
+}
+fn is_press_variant(c: OneShotEndConfig) -> bool {
+    matches!(c, OneShotEndConfig::EndOnFirstPress | OneShotEndConfig::EndOnFirstPressOrRepress)
+}
+fn is_release_variant(c: OneShotEndConfig) -> bool {
+    matches!(c, OneShotEndConfig::EndOnFirstRelease | OneShotEndConfig::EndOnFirstReleaseOrRepress)
+}
+fn is_repress_variant(c: OneShotEndConfig) -> bool {
+    matches!(c, OneShotEndConfig::EndOnFirstPressOrRepress | OneShotEndConfig::EndOnFirstReleaseOrRepress)
+}
+
+struct OshModel {
+    keys: ([KCoord; OSH_N], usize),
+    released: ([KCoord; OSH_N], usize),
+    other: ([KCoord; OSH_N], usize),
+    timeout: u16,
+    end_config: OneShotEndConfig,
+    release_on_next_tick: bool,
+    delay: u16,
+    pause_ticks: u16,
+    ignore: u16,
+}
+
+fn any_osh() -> (OneShotState, OshModel) {
+    let (ka, kn, keys) = any_table();
+    let (ra, rn, released_keys) = any_table();
+    let (oa, on, other_pressed_keys) = any_table();
+    let m = OshModel {
+        keys: (ka, kn),
+        released: (ra, rn),
+        other: (oa, on),
+        timeout: kani::any(),
+        end_config: any_end_config(),
+        release_on_next_tick: kani::any(),
+        delay: kani::any(),
+        pause_ticks: kani::any(),
+        ignore: kani::any(),
+    };
+    let s = OneShotState {
+        keys,
+        released_keys,
+        other_pressed_keys,
+        timeout: m.timeout,
+        end_config: m.end_config,
+        release_on_next_tick: m.release_on_next_tick,
+        pause_input_processing_delay: m.delay,
+        pause_input_processing_ticks: m.pause_ticks,
+        ticks_to_ignore_events: m.ignore,
+    };
+    (s, m)
+}
+
+fn table_is(d: &OneShotCoords, arr: &[KCoord; OSH_N], n: usize) -> bool {
+    if d.len() != n {
+        return false;
+    }
+    let mut i = 0;
+    while i < n {
+        if d[i] != arr[i] {
+            return false;
+        }
+        i += 1;
+    }
+    true
+}
+fn arr_contains(arr: &[KCoord; OSH_N], n: usize, c: KCoord) -> bool {
+    let mut i = 0;
+    let mut r = false;
+    while i < n {
+        if arr[i] == c {
+            r = true;
+        }
+        i += 1;
+    }
+    r
+}
+
+/// handle_press(Other): a non-one-shot key was pressed.
+#[kani::proof]
+#[kani::unwind(6)]
+fn c06_b_press_other() {
+    let (mut s, m) = any_osh();
+    let c = any_coord();
+    let out = s.handle_press(OneShotHandlePressKey::Other(c));
+    let active = m.keys.1 > 0 && m.ignore == 0;
+    // frame: never touched by a press of another key
+    assert!(table_is(&s.keys, &m.keys.0, m.keys.1));
+    assert!(table_is(&s.released_keys, &m.released.0, m.released.1));
+    assert!(s.release_on_next_tick == m.release_on_next_tick);
+    assert!(s.end_config == m.end_config);
+    assert!(s.ticks_to_ignore_events == m.ignore);
+    assert!(s.pause_input_processing_delay == m.delay);
+    if !active {
+        // no one-shot active (or events ignored): nothing is modified, nothing is reported
+        assert!(out.is_empty());
+        assert!(s.timeout == m.timeout && s.pause_input_processing_ticks == m.pause_ticks);
+        assert!(table_is(&s.other_pressed_keys, &m.other.0, m.other.1));
+    } else {
+        // the caller learns exactly the active one-shot keys, in order
+        assert!(table_is(&out, &m.keys.0, m.keys.1));
+        if is_press_variant(m.end_config) {
+            // press variants: the one-shot ends within the rapid-event delay, never later than
+            // its own timeout, and input is paused meanwhile
+            let want = if m.delay < m.timeout { m.delay } else { m.timeout };
+            assert!(s.timeout == want);
+            assert!(s.pause_input_processing_ticks == m.delay);
+            assert!(table_is(&s.other_pressed_keys, &m.other.0, m.other.1));
+        } else {
+            // release variants: remember the key, so that ITS release ends the one-shot
+            assert!(s.timeout == m.timeout && s.pause_input_processing_ticks == m.pause_ticks);
+            assert!(s.other_pressed_keys.len() == m.other.1 + 1);
+            assert!(s.other_pressed_keys[m.other.1] == c);
+            let mut i = 0;
+            while i < m.other.1 {
+                assert!(s.other_pressed_keys[i] == m.other.0[i]);
+                i += 1;
+            }
+        }
+    }
+    kani::cover!(active && m.keys.1 == OSH_N && is_press_variant(m.end_config), "bound attained (press variant)");
+    kani::cover!(active && m.other.1 == OSH_N && is_release_variant(m.end_config), "bound attained (release variant)");
+}
+
+/// handle_press(OneShotKey): a one-shot key was pressed (again).
+#[kani::proof]
+#[kani::unwind(6)]
+fn c06_b_press_oneshot_key() {
+    let (mut s, m) = any_osh();
+    let c = any_coord();
+    let out = s.handle_press(OneShotHandlePressKey::OneShotKey(c));
+    let active = m.keys.1 > 0 && m.ignore == 0;
+    assert!(table_is(&s.keys, &m.keys.0, m.keys.1));
+    assert!(table_is(&s.other_pressed_keys, &m.other.0, m.other.1));
+    assert!(s.timeout == m.timeout && s.pause_input_processing_ticks == m.pause_ticks);
+    assert!(s.end_config == m.end_config && s.ticks_to_ignore_events == m.ignore);
+    if !active {
+        assert!(out.is_empty());
+        assert!(s.release_on_next_tick == m.release_on_next_tick);
+        assert!(table_is(&s.released_keys, &m.released.0, m.released.1));
+    } else {
+        let cancel = is_repress_variant(m.end_config) && arr_contains(&m.keys.0, m.keys.1, c);
+        if cancel {
+            // pcancel variants end on re-press of an active one-shot key
+            assert!(s.release_on_next_tick);
+            assert!(table_is(&out, &m.keys.0, m.keys.1));
+        } else {
+            assert!(s.release_on_next_tick == m.release_on_next_tick);
+            assert!(out.is_empty());
+        }
+        // a held one-shot key acts as the plain key: its deferred release is forgotten,
+        // everything else stays deferred, in order
+        let mut want = [(0u8, 0u16); OSH_N];
+        let mut wn = 0;
+        let mut i = 0;
+        while i < m.released.1 {
+            if m.released.0[i] != c {
+                want[wn] = m.released.0[i];
+                wn += 1;
+            }
+            i += 1;
+        }
+        assert!(table_is(&s.released_keys, &want, wn));
+    }
+    kani::cover!(active && is_repress_variant(m.end_config) && arr_contains(&m.keys.0, m.keys.1, c), "cancel path reached");
+    kani::cover!(active && m.released.1 == OSH_N && arr_contains(&m.released.0, m.released.1, c), "deferred release forgotten");
+}
+
+/// handle_release
+#[kani::proof]
+#[kani::unwind(6)]
+fn c06_b_release() {
+    let (mut s, m) = any_osh();
+    let c = any_coord();
+    let (normal, overflow) = s.handle_release(c);
+    // frame
+    assert!(table_is(&s.keys, &m.keys.0, m.keys.1));
+    assert!(table_is(&s.other_pressed_keys, &m.other.0, m.other.1));
+    assert!(s.timeout == m.timeout && s.pause_input_processing_ticks == m.pause_ticks);
+    assert!(s.end_config == m.end_config && s.ticks_to_ignore_events == m.ignore);
+    if m.keys.1 == 0 {
+        assert!(normal && overflow.is_none());
+        assert!(s.release_on_next_tick == m.release_on_next_tick);
+        assert!(table_is(&s.released_keys, &m.released.0, m.released.1));
+    } else if arr_contains(&m.keys.0, m.keys.1, c) {
+        // the release of an active one-shot key is deferred, not applied
+        assert!(!normal);
+        assert!(overflow.is_none()); // table below capacity
+        assert!(s.released_keys.len() == m.released.1 + 1);
+        assert!(s.released_keys[m.released.1] == c);
+        assert!(s.release_on_next_tick == m.release_on_next_tick);
+    } else {
+        // any other key is released normally; in the release variants the release of the first
+        // key pressed after the one-shot ends it
+        assert!(normal && overflow.is_none());
+        assert!(table_is(&s.released_keys, &m.released.0, m.released.1));
+        let ends = is_release_variant(m.end_config) && arr_contains(&m.other.0, m.other.1, c);
+        assert!(s.release_on_next_tick == (m.release_on_next_tick || ends));
+    }
+    kani::cover!(m.keys.1 == OSH_N && arr_contains(&m.keys.0, m.keys.1, c), "deferred");
+    kani::cover!(m.keys.1 > 0 && !arr_contains(&m.keys.0, m.keys.1, c) && is_release_variant(m.end_config)
+        && arr_contains(&m.other.0, m.other.1, c), "release variant end reached");
+}
+
+/// a 17th deferred release evicts (returns) the oldest instead of being lost
+#[kani::proof]
+#[kani::unwind(20)]
+fn c06_b_release_overflow() {
+    let mut s = OneShotState {
+        keys: ArrayDeque::new(),
+        released_keys: ArrayDeque::new(),
+        other_pressed_keys: ArrayDeque::new(),
+        timeout: kani::any(),
+        end_config: any_end_config(),
+        release_on_next_tick: false,
+        pause_input_processing_delay: 0,
+        pause_input_processing_ticks: 0,
+        ticks_to_ignore_events: 0,
+    };
+    let first: u16 = kani::any();
+    let mut i: u16 = 0;
+    while i < ONE_SHOT_MAX_ACTIVE as u16 {
+        let _ = s.released_keys.push_back((0, first.wrapping_add(i)));
+        i += 1;
+    }
+    let k: KCoord = (1, kani::any());
+    let _ = s.keys.push_back(k);
+    let (normal, overflow) = s.handle_release(k);
+    assert!(!normal);
+    assert!(overflow == Some((0, first)));
+    assert!(s.released_keys.len() == ONE_SHOT_MAX_ACTIVE);
+    assert!(s.released_keys[ONE_SHOT_MAX_ACTIVE - 1] == k);
+}
+
+/// tick_osh
+#[kani::proof]
+#[kani::unwind(6)]
+fn c06_b_tick() {
+    let (mut s, m) = any_osh();
+    let out = s.tick_osh();
+    if m.keys.1 == 0 {
+        // idle: nothing happens
+        assert!(out.is_none());
+        assert!(s.timeout == m.timeout && s.ticks_to_ignore_events == m.ignore);
+        assert!(s.release_on_next_tick == m.release_on_next_tick);
+        assert!(table_is(&s.released_keys, &m.released.0, m.released.1));
+        assert!(table_is(&s.other_pressed_keys, &m.other.0, m.other.1));
+    } else {
+        let t = m.timeout.saturating_sub(1);
+        if m.release_on_next_tick || t == 0 {
+            // expiry: exactly the deferred releases are handed back, in order, and the one-shot
+            // state is completely cleared: it affects nothing after this point
+            let r = out.unwrap();
+            assert!(r.len() == m.released.1);
+            let mut i = 0;
+            while i < m.released.1 {
+                assert!(r[i] == m.released.0[i]);
+                i += 1;
+            }
+            assert!(s.keys.is_empty() && s.released_keys.is_empty() && s.other_pressed_keys.is_empty());
+            assert!(!s.release_on_next_tick && s.timeout == 0);
+            assert!(s.pause_input_processing_ticks == 0 && s.ticks_to_ignore_events == 0);
+            // ... so the next key is not modified
+            let c = any_coord();
+            assert!(s.handle_press(OneShotHandlePressKey::Other(c)).is_empty());
+            let (normal, ov) = s.handle_release(c);
+            assert!(normal && ov.is_none());
+            assert!(s.tick_osh().is_none());
+        } else {
+            assert!(out.is_none());
+            assert!(s.timeout == t);
+            assert!(s.ticks_to_ignore_events == m.ignore.saturating_sub(1));
+            assert!(table_is(&s.keys, &m.keys.0, m.keys.1));
+            assert!(table_is(&s.released_keys, &m.released.0, m.released.1));
+            assert!(table_is(&s.other_pressed_keys, &m.other.0, m.other.1));
+            assert!(s.pause_input_processing_ticks == m.pause_ticks);
+        }
+    }
+    kani::cover!(m.keys.1 > 0 && m.released.1 == OSH_N && m.timeout == 1, "expiry by timeout with full table");
+    kani::cover!(m.keys.1 > 0 && m.timeout > 1 && !m.release_on_next_tick, "still active");
+}
+
+/// "or until its timeout elapses": with no other event a one-shot with timeout T expires at
+/// exactly the T-th tick (T symbolic up to 6; the per-tick contract above is what generalises).
+#[kani::proof]
+#[kani::unwind(9)]
+fn c06_b_expires_on_time() {
+    let t: u16 = kani::any();
+    kani::assume(t >= 1 && t <= 6);
+    let mut s = OneShotState {
+        keys: ArrayDeque::new(),
+        released_keys: ArrayDeque::new(),
+        other_pressed_keys: ArrayDeque::new(),
+        timeout: t,
+        end_config: any_end_config(),
+        release_on_next_tick: false,
+        pause_input_processing_delay: kani::any(),
+        pause_input_processing_ticks: 0,
+        ticks_to_ignore_events: 0,
+    };
+    let _ = s.keys.push_back((0, 1));
+    let mut n: u16 = 0;
+    let mut fired_at: u16 = 0;
+    while n < 7 {
+        n += 1;
+        if s.tick_osh().is_some() && fired_at == 0 {
+            fired_at = n;
+        }
+    }
+    assert!(fired_at == t);
+}
+
+/// must-fail twin: claims a press of another key never shortens the timeout
+#[kani::proof]
+#[kani::unwind(6)]
+fn c06_b_press_other_neg() {
+    let (mut s, m) = any_osh();
+    let c = any_coord();
+    let _ = s.handle_press(OneShotHandlePressKey::Other(c));
+    assert!(s.timeout == m.timeout);
+}
+
+// =======================================================================================
+// C05  WaitingState::{handle_hold_tap, tick_wt (HoldTap arm)}
+// Bound: at most WQ_N queued events.  All u16 timeouts / delays / ages.
+// =======================================================================================
+const WQ_N: usize = 4;
+
+static NOOP: Action<'static, core::convert::Infallible> = Action::NoOp;
+
+fn small_coord() -> KCoord {
+    let c: u16 = kani::any();
+    kani::assume(c < 3);
+    (0, c)
+}
+
+fn any_event() -> Event {
+    let (i, j) = small_coord();
+    if kani::any() {
+        Event::Press(i, j)
+    } else {
+        Event::Release(i, j)
+    }
+}
+
+/// a queue of n <= WQ_N symbolic events (and the same events as an array, the abstract view)
+fn any_queue() -> (Queue, [Queued; WQ_N], usize) {
+    let q0 = || Queued { event: any_event(), since: kani::any() };
+    let arr = [q0(), q0(), q0(), q0()];
+    let n: usize = kani::any();
+    kani::assume(n <= WQ_N);
+    let mut q: Queue = ArrayDeque::new();
+    let mut i = 0;
+    while i < n {
+        let _ = q.push_back(arr[i]);
+        i += 1;
+    }
+    (q, arr, n)
+}
+
+fn queue_is(q: &Queue, arr: &[Queued; WQ_N], n: usize) -> bool {
+    if q.len() != n {
+        return false;
+    }
+    let mut i = 0;
+    while i < n {
+        if q[i].event != arr[i].event || q[i].since != arr[i].since {
+            return false;
+        }
+        i += 1;
+    }
+    true
+}
+
+fn any_waiting(config: WaitingConfig<'static, core::convert::Infallible>) -> WaitingState<'static, core::convert::Infallible> {
+    WaitingState {
+        coord: small_coord(),
+        timeout: kani::any(),
+        delay: kani::any(),
+        ticks: kani::any(),
+        hold: &NOOP,
+        tap: &NOOP,
+        timeout_action: &NOOP,
+        config,
+        layer_stack: Vec::new(),
+        prev_queue_len: kani::any(),
+    }
+}
+
+fn any_builtin_cfg() -> (HoldTapConfig<'static>, u8) {
+    let k: u8 = kani::any();
+    kani::assume(k < 3);
+    (
+        match k {
+            0 => HoldTapConfig::Default,
+            1 => HoldTapConfig::HoldOnOtherKeyPress,
+            _ => HoldTapConfig::PermissiveHold,
+        },
+        k,
+    )
+}
+
+/// the decision the property statement prescribes, over the abstract view of the queue
+fn oracle_hold_tap(k: u8, coord: KCoord, timeout: u16, delay: u16, arr: &[Queued; WQ_N], n: usize, skip_timeout: bool) -> Option<WaitingAction> {
+    // early triggers
+    if k == 1 {
+        // "press" variant: another key pressed -> hold
+        let mut i = 0;
+        while i < n {
+            if arr[i].event.is_press() {
+                return Some(WaitingAction::Hold);
+            }
+            i += 1;
+        }
+    }
+    if k == 2 {
+        // "release" variant: another key pressed and released -> hold
+        let mut i = 0;
+        while i < n {
+            if let Event::Press(a, b) = arr[i].event {
+                let mut j = i + 1;
+                while j < n {
+                    if arr[j].event == Event::Release(a, b) {
+                        return Some(WaitingAction::Hold);
+                    }
+                    j += 1;
+                }
+            }
+            i += 1;
+        }
+    }
+    // own release: tap iff it came before the hold timeout elapsed
+    let mut i = 0;
+    while i < n {
+        if arr[i].event == Event::Release(coord.0, coord.1) {
+            let owed = if delay > arr[i].since { delay - arr[i].since } else { 0 };
+            return if timeout > owed { Some(WaitingAction::Tap) } else { Some(WaitingAction::Timeout) };
+        }
+        i += 1;
+    }
+    // no release: the timeout action exactly when the timeout has elapsed
+    if timeout == 0 && !skip_timeout {
+        Some(WaitingAction::Timeout)
+    } else {
+        None
+    }
+}
+
+#[kani::proof]
+#[kani::unwind(7)]
+fn c05_b_handle_hold_tap() {
+    let (cfg, k) = any_builtin_cfg();
+    let mut w = any_waiting(WaitingConfig::HoldTap(cfg));
+    let (q, arr, n) = any_queue();
+    let (coord, timeout, delay, ticks, prev) = (w.coord, w.timeout, w.delay, w.ticks, w.prev_queue_len);
+    let r = w.handle_hold_tap(cfg, &q);
+    // frame: the decision never consumes or reorders pending input, nor the clock
+    assert!(queue_is(&q, &arr, n));
+    assert!(w.coord == coord && w.timeout == timeout && w.delay == delay && w.ticks == ticks);
+    if n as u8 == prev && timeout > 0 {
+        // nothing new since the last look and not timed out: still pending
+        assert!(r.is_none());
+        assert!(w.prev_queue_len == prev);
+    } else {
+        assert!(w.prev_queue_len == n as u8);
+        let want = oracle_hold_tap(k, coord, timeout, delay, &arr, n, false);
+        assert!(r == want);
+        // exactly one of tap / hold / timeout, never "drop the key"
+        assert!(r != Some(WaitingAction::NoOp));
+    }
+    kani::cover!(n == WQ_N && r == Some(WaitingAction::Tap), "tap with full queue");
+    kani::cover!(n == WQ_N && r == Some(WaitingAction::Hold) && k == 2, "permissive hold with full queue");
+    kani::cover!(r == Some(WaitingAction::Timeout) && n == 0, "timeout with empty queue");
+}
+
+/// tick_wt on a tap-hold: one millisecond passes, then the decision is taken on the new clock.
+#[kani::proof]
+#[kani::unwind(7)]
+fn c05_b_tick_wt_hold_tap() {
+    let (cfg, k) = any_builtin_cfg();
+    let mut w = any_waiting(WaitingConfig::HoldTap(cfg));
+    let (mut q, arr, n) = any_queue();
+    let mut aq: ActionQueue<'static, core::convert::Infallible> = ArrayDeque::new();
+    let (coord, timeout, delay, ticks, prev) = (w.coord, w.timeout, w.delay, w.ticks, w.prev_queue_len);
+    let r = w.tick_wt(&mut q, &mut aq);
+    let fired = r.is_some();
+    let t1 = timeout.saturating_sub(1);
+    assert!(w.timeout == t1);
+    assert!(w.ticks == ticks.saturating_add(1));
+    assert!(queue_is(&q, &arr, n));
+    assert!(aq.is_empty());
+    if n as u8 == prev && t1 > 0 {
+        assert!(r.is_none());
+    } else {
+        let want = oracle_hold_tap(k, coord, t1, delay, &arr, n, false);
+        match r {
+            None => assert!(want.is_none()),
+            Some((a, pq)) => {
+                assert!(want == Some(a));
+                assert!(pq.is_none());
+            }
+        }
+    }
+    kani::cover!(timeout == 1 && n == 0 && fired, "fires exactly when the timeout elapses");
+}
+
+/// "hold exactly when the timeout elapses": from timeout H with no input, tick_wt stays pending
+/// for H-1 calls and returns Timeout at the H-th (H symbolic up to 6).
+#[kani::proof]
+#[kani::unwind(9)]
+fn c05_b_timeout_on_time() {
+    let h: u16 = kani::any();
+    kani::assume(h >= 1 && h <= 6);
+    let (cfg, _k) = any_builtin_cfg();
+    let mut w = any_waiting(WaitingConfig::HoldTap(cfg));
+    w.timeout = h;
+    w.prev_queue_len = QueueLen::MAX;
+    let mut q: Queue = ArrayDeque::new();
+    let mut aq: ActionQueue<'static, core::convert::Infallible> = ArrayDeque::new();
+    let mut n: u16 = 0;
+    let mut fired_at: u16 = 0;
+    while n < 7 && fired_at == 0 {
+        n += 1;
+        match w.tick_wt(&mut q, &mut aq) {
+            Some((a, _)) => {
+                assert!(a == WaitingAction::Timeout);
+                fired_at = n;
+            }
+            None => {}
+        }
+    }
+    assert!(fired_at == h);
+}
+
+/// must-fail twin: claims a queued release always means tap
+#[kani::proof]
+#[kani::unwind(7)]
+fn c05_b_handle_hold_tap_neg() {
+    let mut w = any_waiting(WaitingConfig::HoldTap(HoldTapConfig::Default));
+    let (q, arr, n) = any_queue();
+    kani::assume(n >= 1 && arr[0].event == Event::Release(w.coord.0, w.coord.1));
+    w.prev_queue_len = QueueLen::MAX;
+    let r = w.handle_hold_tap(HoldTapConfig::Default, &q);
+    assert!(r == Some(WaitingAction::Tap));
+}
+
+/// LastPressTracker: only real-key presses move the tracked coordinate; the repress window
+/// counts down and stops at zero.
+#[kani::proof]
+fn c05_k_last_press_tracker() {
+    let mut t = LastPressTracker { coord: (kani::any(), kani::any()), tap_hold_timeout: kani::any() };
+    let (c0, t0) = (t.coord, t.tap_hold_timeout);
+    t.tick_lpt();
+    assert!(t.tap_hold_timeout == t0.saturating_sub(1) && t.coord == c0);
+    let c: KCoord = (kani::any(), kani::any());
+    t.update_coord(c);
+    assert!(t.coord == if c.0 == 0 { c } else { c0 });
+}
+
+// =======================================================================================
+// C17  tap-dance: WaitingState::{handle_tap_dance, tick_wt (TapDance arm)}, TapDanceEagerState
+// Bound: at most WQ_N queued events; action lists of length 1..=4.
+// =======================================================================================
+
+static TD_A: [Action<'static, core::convert::Infallible>; 4] =
+    [Action::KeyCode(KeyCode::A), Action::KeyCode(KeyCode::B), Action::KeyCode(KeyCode::C), Action::KeyCode(KeyCode::D)];
+static TD_REFS: [&Action<'static, core::convert::Infallible>; 4] = [&TD_A[0], &TD_A[1], &TD_A[2], &TD_A[3]];
+
+/// what the queue must look like after a decision: own presses gone, all but the LAST own
+/// release gone, everything else in order
+fn oracle_evicted(arr: &[Queued; WQ_N], n: usize, coord: KCoord, taps: u16) -> ([Queued; WQ_N], usize) {
+    let mut out = *arr;
+    let mut m = 0;
+    let mut to_remove = taps.saturating_sub(1);
+    let mut i = 0;
+    while i < n {
+        let e = arr[i].event;
+        let keep = if e == Event::Release(coord.0, coord.1) {
+            if to_remove > 0 {
+                to_remove -= 1;
+                false
+            } else {
+                true
+            }
+        } else {
+            e != Event::Press(coord.0, coord.1)
+        };
+        if keep {
+            out[m] = arr[i];
+            m += 1;
+        }
+        i += 1;
+    }
+    (out, m)
+}
+
+#[kani::proof]
+#[kani::unwind(7)]
+fn c17_b_handle_tap_dance() {
+    let max_taps: usize = kani::any();
+    kani::assume(max_taps >= 1 && max_taps <= 4);
+    let num_taps_in: u16 = kani::any();
+    kani::assume(num_taps_in >= 1 && num_taps_in <= 4);
+    let w = any_waiting(WaitingConfig::TapDance(TapDanceState { actions: &TD_REFS[..max_taps], timeout: kani::any(), num_taps: num_taps_in }));
+    let (mut q, arr, n) = any_queue();
+    let (coord, timeout, prev) = (w.coord, w.timeout, w.prev_queue_len);
+    let (r, taps) = w.handle_tap_dance(num_taps_in, max_taps, &mut q);
+    if n as u8 == prev && timeout > 0 {
+        assert!(r.is_none() && taps == num_taps_in);
+        assert!(queue_is(&q, &arr, n));
+        return;
+    }
+    if timeout == 0 {
+        // the count ends when the timeout passes
+        assert!(r == Some(WaitingAction::Tap) && taps == num_taps_in);
+        let (want, m) = oracle_evicted(&arr, n, coord, num_taps_in);
+        assert!(queue_is(&q, &want, m));
+        return;
+    }
+    // count = 1 + own presses before the first press of another key
+    let mut count: u16 = 1;
+    let mut interrupted = false;
+    let mut i = 0;
+    while i < n && !interrupted {
+        match arr[i].event {
+            Event::Press(a, b) if (a, b) == coord => count += 1,
+            Event::Press(..) => interrupted = true,
+            _ => {}
+        }
+        i += 1;
+    }
+    assert!(taps == count);
+    let decided = interrupted || usize::from(count) >= max_taps;
+    if decided {
+        // ... another key is pressed, or the list is exhausted
+        assert!(r == Some(WaitingAction::Tap));
+        let (want, m) = oracle_evicted(&arr, n, coord, count);
+        assert!(queue_is(&q, &want, m));
+    } else {
+        assert!(r.is_none());
+        assert!(queue_is(&q, &arr, n));
+    }
+    kani::cover!(n == WQ_N && interrupted && count == 2, "interrupted after two taps");
+    kani::cover!(!decided && count == 3, "three taps still counting");
+}
+
+/// tick_wt on a tap-dance: the N-th listed action (the last one if N reaches the length), and
+/// the timeout restarts exactly when the tap count grew.
+#[kani::proof]
+#[kani::unwind(7)]
+fn c17_b_tick_wt_tap_dance() {
+    let max_taps: usize = kani::any();
+    kani::assume(max_taps >= 1 && max_taps <= 4);
+    let num_taps_in: u16 = kani::any();
+    kani::assume(num_taps_in >= 1 && num_taps_in <= 4);
+    let td_timeout: u16 = kani::any();
+    let mut w = any_waiting(WaitingConfig::TapDance(TapDanceState { actions: &TD_REFS[..max_taps], timeout: td_timeout, num_taps: num_taps_in }));
+    let (mut q, arr, n) = any_queue();
+    let mut aq: ActionQueue<'static, core::convert::Infallible> = ArrayDeque::new();
+    let timeout = w.timeout;
+    let r = w.tick_wt(&mut q, &mut aq);
+    let fired = r.is_some();
+    let new_taps = match w.config {
+        WaitingConfig::TapDance(t) => {
+            assert!(t.timeout == td_timeout && t.actions.len() == max_taps);
+            t.num_taps
+        }
+        _ => panic!("config changed kind"),
+    };
+    assert!(w.prev_queue_len == q.len() as u8);
+    if fired {
+        // chosen action: index min(N, len) - 1
+        let idx = core::cmp::min(usize::from(new_taps), max_taps) - 1;
+        assert!(core::ptr::eq(w.tap, TD_REFS[idx]));
+        match r {
+            Some((a, pq)) => assert!(a == WaitingAction::Tap && pq.is_none()),
+            None => {}
+        }
+    }
+    if new_taps > num_taps_in {
+        assert!(w.timeout == td_timeout);
+    } else {
+        assert!(w.timeout == timeout.saturating_sub(1));
+    }
+    assert!(aq.is_empty());
+    kani::cover!(fired && new_taps == 3 && max_taps == 4, "third of four");
+    kani::cover!(fired && usize::from(new_taps) > max_taps, "more taps than actions");
+}
+
+/// eager form: per-tap timer and expiry
+#[kani::proof]
+fn c17_k_eager_state() {
+    let len: usize = kani::any();
+    kani::assume(len >= 1 && len <= 4);
+    let mut s = TapDanceEagerState { coord: (0, 0), actions: &TD_REFS[..len], timeout: kani::any(), orig_timeout: kani::any(), num_taps: kani::any() };
+    kani::assume(s.num_taps < u16::MAX);
+    let (t0, o, n0) = (s.timeout, s.orig_timeout, s.num_taps);
+    assert!(s.is_expired() == (t0 == 0 || usize::from(n0) >= len));
+    s.tick_tde();
+    assert!(s.timeout == t0.saturating_sub(1) && s.num_taps == n0);
+    s.incr_taps();
+    // each tap restarts the timer
+    assert!(s.num_taps == n0 + 1 && s.timeout == o);
+    s.set_expired();
+    assert!(s.is_expired());
+}
+
+/// must-fail twin: claims a tap-dance never decides before the timeout
+#[kani::proof]
+#[kani::unwind(7)]
+fn c17_b_handle_tap_dance_neg() {
+    let w = any_waiting(WaitingConfig::TapDance(TapDanceState { actions: &TD_REFS[..2], timeout: kani::any(), num_taps: 1 }));
+    let (mut q, _arr, _n) = any_queue();
+    kani::assume(w.timeout > 0);
+    let (r, _) = w.handle_tap_dance(1, 2, &mut q);
+    assert!(r.is_none());
+}
